@@ -19,8 +19,9 @@
 (*                      says whether (a, q) are in the documented regime.          *)
 (*    out = "ok" with lo (rounded down) and hi (rounded up) in 1e-9 units,          *)
 (*    "nonfinite" or "panic".                                                      *)
-(*    Contract: the call returned finite numbers; lo <= hi + 1 unit; and in the    *)
-(*    documented regime lo - 1e-4 <= J <= hi + 1e-4.                               *)
+(*    Contract: the call returned finite numbers; lo <= hi + 1 unit; in the        *)
+(*    documented regime lo - 1e-4 <= J <= hi + 1e-4; and (field pure) the same     *)
+(*    call made again in a new thread after other calls returned the same bits.    *)
 (*    0 <= lo and hi <= 1 (+ 1 unit) are not part of the property: advisory drift. *)
 (* Every well-formed event is consumed; events that break the contract are         *)
 (* collected in rej and reported at the end, so one run classifies a whole trace.  *)
@@ -61,6 +62,8 @@ LexLess(a, b) == \/ a[1] < b[1]
 Contract(r) ==
   /\ r.out = "ok"
   /\ r.lo <= r.hi + 1
+  \* the interval is a function of (b, fraction): the same call in a new thread, after other calls, gave the same bits
+  /\ Has(r, "pure") => r.pure
   /\ (r.src = "oracle" /\ r.regime) => (r.lo - TOL <= r.j9 /\ r.j9 <= r.hi + TOL)
 
 Drift(r) == r.out = "ok" /\ (r.lo < 0 \/ r.hi > UNIT + 1)
